@@ -75,9 +75,13 @@ def _repl(m):
 
 
 def dec_py(c):
+    """through the running tokenizer (its own escape callback, not the copy above): the text is put inside a comment, a
+    token kind that goes through the escape reader and may hold any character"""
     from css_parser.tokenize2 import Tokenizer
     from css_parser.helper import normalize
-    return lib.enc(normalize(Tokenizer.unicodesub(_repl, c[2])))
+    toks = list(Tokenizer().tokenize('/*' + c[2] + '*/'))
+    assert len(toks) == 1 and toks[0][0] == 'COMMENT', toks
+    return lib.enc(normalize(toks[0][1][2:-2]))
 
 
 def dec_oracle(c, e):
